@@ -298,7 +298,7 @@ def gen_pack_cases(ctx: Ctx) -> list[tuple]:
         for kl in KEY_INFO_SIZES if ctx.thorough else KEY_INFO_SIZES[::2] + [800]:
             out.append((cl, kl, True))
     for cl in BIG_CONTENT + ([70000, 2**17] if ctx.thorough else []):
-        for kl in (0, 32, 800):
+        for kl in (0, 32, 800) if ctx.thorough else (0, 800):
             out.append((cl, kl, True))
         out.append((cl, 32, False))
     for _ in range(ctx.pick(450, 8000)):
@@ -322,21 +322,21 @@ def run(ctx: Ctx) -> int:
     for cl, kl, win in gen_pack_cases(ctx):
         blob = gen_blob(ctx.rng, cl, kl, win)
         for in_env in (True, False):
-            rows.append(pack_row(cid, blob, in_env))
+            rows.append(pack_row(f"k{cid}", blob, in_env))
             cid += 1
         k = blob.key_identifier
         ctx.distinct(("pack", cl, kl, win, len(k.domain_name.encode("utf-16-le")) > 126, max(map(ord, k.domain_name + k.forest_name + "a")) > 0xFFFF,
                       blob.enc_cek_parameters is None, blob.enc_content_parameters is None))
     n_pack = cid
     # real protect outputs (offline: root key loaded into the cache)
-    sizes = [0, 1, 15, 16, 110, 111, 112, 113, 238, 239, 240, 241, 1000] + ([65518, 65519, 65520, 65521] if True else [])
+    sizes = [0, 1, 15, 16, 110, 111, 112, 113, 238, 239, 240, 241, 1000, 65518, 65519, 65520, 65521]
     hashes = ["SHA512", "SHA256", "SHA1", "SHA384"]
     for i in range(ctx.pick(160, 3000)):
         h = hashes[i % 4]
         rkid = uuid.UUID(bytes=ctx.rng.randbytes(16))
         cache = dpapi_ng.KeyCache()
         cache.load_key(ctx.rng.randbytes(64), rkid, kdf_parameters=KDFParameters(h).pack())
-        n = sizes[i % len(sizes)] if i < 4 * len(sizes) else ctx.rng.choice(sizes[:13] + [ctx.rng.randrange(0, 3000)])
+        n = sizes[i % len(sizes)] if i < ctx.pick(1, 4) * len(sizes) else ctx.rng.choice(sizes[:13] + [ctx.rng.randrange(0, 3000)])
         sid = "S-1-5-21-" + "-".join(str(ctx.rng.getrandbits(32)) for _ in range(ctx.rng.randrange(1, 6)))
         rows.append(protect_row(f"p{i}", cache, rkid, sid, ctx.rng.randbytes(n), "async" if i % 5 == 4 else "sync"))
         ctx.distinct(("protect", n, h, i % 5 == 4))
